@@ -12,7 +12,8 @@ R=$(mktemp -d /tmp/mutroot.XXXX); H=$(mktemp -d /tmp/muth.XXXX)
 cp -a /verif/spec /verif/known_findings.json "$R/"; mkdir -p "$R/evidence"
 cp -a /verif/harness/. "$H/"; sed -i "s#=> /repo#=> $W#" "$H/go.mod"
 (cd "$H" && go build -tags verif -o "$H/vcheck" .) > "$H/build.log" 2>&1 || { echo "harness build failed against the patched tree:"; tail -5 "$H/build.log"; rm -rf "$R" "$H"; cd "$W"; git checkout -q -- .; git clean -fdq; exit 2; }
-VERIF_REPO="$W" VERIF_ROOT="$R" "$H/vcheck" "$ID" "$TIER" 2>&1 | grep -E "^(VIOLATION|OK|INCONCLUSIVE|KNOWN|DRIFT)" | grep -v "^KNOWN" | sed -E 's/replay=[^ ]* //' | cut -c1-240 | head -${LINES_MAX:-4}
-rc=${PIPESTATUS[0]}
+VERIF_REPO="$W" VERIF_ROOT="$R" "$H/vcheck" "$ID" "$TIER" > "$H/out.txt" 2>&1
+rc=$?
+grep -E "^(VIOLATION|OK|INCONCLUSIVE|KNOWN|DRIFT)" "$H/out.txt" | grep -v "^KNOWN" | sed -E 's/replay=[^ ]* //' | cut -c1-240 | head -${LINES_MAX:-4}
 rm -rf "$R" "$H"; cd "$W" && git checkout -q -- . && git clean -fdq >/dev/null 2>&1
 echo "check exit: $rc"
